@@ -252,10 +252,55 @@ def rng_cap(case):
     return 2 + case["est"] % 7
 
 
+def check_geometry(hit):
+    """a geometry on which the library departs from the documented sizing rule: the reference reader,
+    which derives (k, m) from the footer by that rule, then reads other bits than the library wrote"""
+    import probables as P
+
+    est, fpr = hit["est"], hit["fpr"]
+    b = P.BloomFilter(est_elements=est, false_positive_rate=fpr)
+    keys = ["geo-%d" % i for i in range(40)]
+    for k in keys:
+        b.add(k)
+    data = bytes(b)
+    lost = [k for k in keys if not ref_bloom_reader(data, k)]
+    base = f"BloomFilter(est_elements={est}, false_positive_rate={fpr}) has (hashes, bits) = {tuple(hit['got'])}, the documented rule ceil(-n ln p / 0.4804530139182), round(0.6931471805599453 m/n) gives {tuple(hit['documented'])}"
+    if lost:
+        return base + f"; the reference reader of the exported file reports {len(lost)} of {len(keys)} added keys absent"
+    if data != ref_bloom_writer(est, fpr, keys):
+        return base + "; the exported file differs from the reference writer's"
+    return base
+
+
 def run(tier, seed, deep, hints):
+    from search.common import geometry_scan
+
+    n_max = 300000 if (tier == "quick" and not deep) else 30000000
+    hit, scanned, calls = geometry_scan(n_max)
+    if hit:
+        what = check_geometry(hit)
+        return [{"what": what, "case": {"kind": "geometry", **hit}, "signature": {"structure": "bloom", "failure": "sizing departs from the documented rule"}}], {
+            "evaluations": scanned, "distinct_nontrivial": calls, "samples": [{"search_case": hit}]}
+    f, st = _run_random(tier, seed, deep, hints)
+    st["geometry_scan"] = {"est_values_scanned": scanned, "real_calls": calls}
+    st["evaluations"] += calls
+    return f, st
+
+
+def _run_random(tier, seed, deep, hints):
     return drive(tier, seed, deep, "search-C06", gen, check, None, lambda c, b: {"structure": c["kind"], "failure": "".join(ch for ch in b if not ch.isdigit())[:45]}, n_quick=300, n_thorough=6000)
 
 
 def replay(finding):
+    if finding["case"].get("kind") == "geometry":
+        import math
+        import struct
+
+        from probables import BloomFilter
+
+        c = finding["case"]
+        got = BloomFilter._get_optimized_params(c["est"], c["fpr"])
+        ok = [got[1], got[2]] == c["documented"]
+        return ok, f"est_elements={c['est']} fpr={c['fpr']}: library (hashes, bits) = {(got[1], got[2])}, documented rule {tuple(c['documented'])}"
     bad = check(finding["case"])
     return bad is None, f"{finding['case']['kind']} keys={finding['case']['keys'][:5]}… -> {bad or 'file is the documented layout'}"
